@@ -4,7 +4,7 @@
    import; each case is printed with the expected database for replay on the code.              *)
 EXTENDS GffDB, Json
 CONSTANT NF
-VA == <<97>>  VB == <<98>>
+VA == <<97>>  VB == <<65>>          \* "a" and "A": keys that differ only in letter case are different keys
 AttrChoices == {<<>>, <<<<>>>>, <<VA>>, <<VB>>, <<VA, VB>>}       \* absent / no value / one value / two values
 \* (ID choice, Name choice): <<>> = attribute absent, <<<<>>>> is "present without value"
 MkAttrs(idc, nmc) == (IF idc = <<>> THEN <<>> ELSE <<<<T_ID, IF idc = <<<<>>>> THEN <<>> ELSE idc>>>>)
